@@ -141,6 +141,9 @@ pub struct Obs {
   pub calls: usize,
   pub closures_per_subscription: usize,
   pub finalize_marks: usize,
+  /// successive subscriptions only: the number its stateful combine_latest combinator gave to its
+  /// first call after each subscription began (must be 1 for every subscription)
+  pub first_combine_call: Vec<i64>,
   pub ended_subscriptions: usize,
   pub events: usize,
   pub stateful: bool,
@@ -259,6 +262,20 @@ pub fn observe(c: &Case) -> Result<Obs, String> {
     }
     let calls = evs.iter().filter(|e| e.id == SRC_CALL_ID).count();
     let finalize_marks = evs.iter().filter(|e| e.id == FIN).count();
+    let mut first_combine_call = vec![];
+    if matches!(c.how, How::Successive | How::SuccessiveUnsub) {
+      let mut waiting = false;
+      for e in &evs {
+        match e.k {
+          K::Mark("subscribe", _) if e.id == 0 => waiting = true,
+          K::Mark("combine_call", n) if e.id == crate::build::COMBINE_CALL_ID && waiting => {
+            first_combine_call.push(n);
+            waiting = false;
+          }
+          _ => {}
+        }
+      }
+    }
     let ended = traces.iter().filter(|t| t.last().map_or(false, |(_, n)| n.is_terminal())).count();
     let stateful = c.chain.any_op(&|op| {
       !matches!(op, Op::Map(_) | Op::MapTo(_) | Op::Filter(_) | Op::FilterMap(..) | Op::Tap(_) | Op::BoxIt | Op::OnErrorMap(_) | Op::IgnoreElements)
@@ -269,6 +286,7 @@ pub fn observe(c: &Case) -> Result<Obs, String> {
       calls,
       closures_per_subscription: count_closures(&c.chain),
       finalize_marks,
+      first_combine_call,
       ended_subscriptions: ended,
       events: evs.len(),
       stateful,
@@ -293,6 +311,13 @@ pub fn judge(c: &Case, o: &Result<Obs, String>) -> Option<(String, serde_json::V
     return Some((
       "closure_call_count".into(),
       json!({"calls": o.calls, "subscriptions": started, "closures_per_subscription": o.closures_per_subscription}),
+    ));
+  }
+  // a combinator closure is operator state too: every subscription starts with a fresh copy
+  if c.chain.ops.iter().filter(|op| matches!(op, Op::CombineLatest(_))).count() == 1 && o.first_combine_call.iter().any(|n| *n != 1) {
+    return Some((
+      "closure_state_shared".into(),
+      json!({"why": "the combine_latest combinator numbers its own calls; after a new subscription began its first call did not carry number 1", "first_call_numbers": o.first_combine_call}),
     ));
   }
   for j in 1..o.traces.len() {
